@@ -392,9 +392,13 @@ def run(chk):
         run_parallel([lambda m=m: sany(m) for m in ('Gen_ServerRun', 'Trace_ServerRun')], width=2)
         # ---- 1 TLC (in the background): design checks (repaired holds, pinned fails), behaviour emission
         thunks = [lambda: model_check('ServerRun', f'MC_ServerRun_{tier}.cfg', timeout=1500, workers=3 if quick else 8,
-                                      env=JVM, heap='2g'),
+                                      env=JVM, heap='2g' if quick else '6g'),
                   lambda: model_check('ServerRun', f'MC_ServerRun_{tier}_live.cfg', timeout=1500, workers=2 if quick else 4,
                                       env=JVM, heap='2g')]
+        if not quick:
+            thunks.append(lambda: model_check('ServerRun', 'MC_ServerRun_thorough_crash.cfg', timeout=1500, workers=4,
+                                              env=JVM, heap='3g'))
+        nmc = len(thunks)
         must = MUST_FAIL + ([] if quick else MUST_FAIL_THOROUGH)
         for cfg, _ in must:
             thunks.append(lambda cfg=cfg: run_tlc('ServerRun', cfg, timeout=1500, workers=1, env=JVM, heap='1g'))
@@ -414,10 +418,10 @@ def run(chk):
         # ---- 2 code -> spec (meanwhile): scenario catalogue under explored schedules
         ejobs = []
         for name in sorted(SCEN):
-            ejobs.append((name, 'dfs', chk.seed, 20 if quick else 1500))
-            ejobs.append((name, 'rnd', chk.seed + 1, 6 if quick else 400))
+            ejobs.append((name, 'dfs', chk.seed, 20 if quick else 400))
+            ejobs.append((name, 'rnd', chk.seed + 1, 6 if quick else 150))
             if name in LINE_LEVEL:
-                ejobs.append((name, 'line', chk.seed + 2, 16 if quick else 1500))
+                ejobs.append((name, 'line', chk.seed + 2, 16 if quick else 500))
         corpus_file = VERIF / 'corpus' / 'X06.json'
         corpus = json.loads(corpus_file.read_text()) if corpus_file.exists() else []
         if pool is not None:
@@ -443,9 +447,9 @@ def run(chk):
 
         out = [f.result() for f in futs]
         ex.shutdown()
-        for r in out[:2]:
+        for r in out[:nmc]:
             chk.add_tlc(r)
-        for (cfg, prop), r in zip(must, out[2:2 + len(must)]):
+        for (cfg, prop), r in zip(must, out[nmc:nmc + len(must)]):
             if not ((r.violated and r.violated[1] == prop) or f'Temporal property {prop} was violated' in r.out):
                 raise MachineryError(f'{cfg}: the as-implemented design is expected to violate {prop}: '
                                      f'{r.violated or r.error}')
